@@ -108,7 +108,7 @@ WRet ==
 \* no-op and the reader leaves the loop: the call of its put(None).  Closing but not yet closed
 \* (another task is between the steps of close()): nothing happens and the loop goes on.
 RFrameClose ==
-    /\ pc[Reader] = "r_wait" /\ inframes # <<>> /\ wsopen
+    /\ pc[Reader] = "r_wait" /\ inframes # <<>>     \* (a frame already received is still handed over)
     /\ inframes' = Tail(inframes)
     /\ IF closed
        THEN /\ PrePut(Reader, NIL, "r_join") /\ UNCHANGED <<closing, closed, ev>>
@@ -120,7 +120,7 @@ RFrameClose ==
 \* the socket closes under the reader (client gone, or the writer closed it): leave the loop;
 \* the call of the put(None) that unlocks the writer
 RSocketClosed ==
-    /\ pc[Reader] = "r_wait" /\ (~wsopen \/ (gone /\ inframes = <<>>))
+    /\ pc[Reader] = "r_wait" /\ (~wsopen \/ gone) /\ inframes = <<>>
     /\ PrePut(Reader, NIL, "r_join")
     /\ UNCHANGED <<q, unf, closing, closed, intable, ev, deliv, sent, kind, pk, alloc, putord>> /\ WsUnch
 RPut ==
